@@ -148,7 +148,8 @@ def conflicts(model, version='1.0'):
             for s in syms:
                 els.setdefault(s, set()).add(label)
     for s, labels in els.items():
-        types = set(l.split(':', 1)[1] if ':' in l else '' for l in labels)
+        # an element without a type attribute has the type xs:anyType
+        types = set({'untyped': 'anyType'}.get(t, t) for t in (l.split(':', 1)[1] if ':' in l else '' for l in labels))
         if len(types) > 1:
             out.append(('EDC', s, sorted(labels), [s], 'model'))
     return out, len(ctx.pos), sum(len(v) for v in ctx.follow.values())
